@@ -67,6 +67,11 @@ pub fn leftover(before: &Snapshot, after: &Snapshot) -> Option<(String, Value)> 
 }
 
 /// the class of what is left behind (for root-cause signatures): which kind of item appeared
+/// number of live text selections over all resources (from the hooked dump)
+fn textselection_count(s: &Snapshot) -> usize {
+    s.dump["resources"].as_array().map(|a| a.iter().map(|r| r["textselections"].as_array().map(|x| x.iter().filter(|t| !t.is_null()).count()).unwrap_or(0)).sum()).unwrap_or(0)
+}
+
 fn leak_class(before: &Snapshot, after: &Snapshot) -> String {
     let count = |v: &Value, path: &[&str]| -> usize {
         let mut cur = v;
@@ -273,7 +278,15 @@ fn single_faults(rep: &mut Report, rng: &mut Rng, h: &mut History, g: &mut Gen, 
             // root cause recorded as a finding: annotate() resolves the target (inserting text selections), then inserts the
             // data (creating sets and keys), then the annotation; a failure in a later step does not undo the earlier ones
             let leak = leak_class(&before, &after);
-            let explained = matches!(f.bad, Op::Annotate(_)) && leak.split('+').all(|x| ["datasets", "keys", "data", "textselections"].contains(&x));
+            rep.count(&format!("left-behind/{}/{}", f.name, leak));
+            // what the recorded finding leaves behind, per fault: a complex selector refused at a later member leaves the one text
+            // selection of its first member and nothing else; a failure after the data step may leave sets, keys, data and the target's selection
+            let explained = matches!(f.bad, Op::Annotate(_))
+                && match f.name {
+                    "nested-complex-selector-first" => false,
+                    "complex-with-invalid-last-member" | "nested-complex-selector" => leak == "textselections" && textselection_count(&after) == textselection_count(&before) + 1,
+                    _ => leak.split('+').all(|x| ["datasets", "keys", "data", "textselections"].contains(&x)),
+                };
             rep.violation(
                 format!("C14/{}/leaves/{}", f.name, if explained { "explained:earlier-steps-of-annotate-are-not-rolled-back".to_string() } else { leak.clone() }),
                 json!({"request": f.bad.to_json(), "error": r.outcome.to_json(), "first_difference": cls, "detail": detail, "history": h.replay_json()}),
@@ -397,7 +410,14 @@ fn batch_fault(rep: &mut Report, rng: &mut Rng, h: &mut History, g: &mut Gen, wo
             rep.count(&format!("batch-refused/{}/{}", api, normalise_msg(&e.chars().take(70).collect::<String>())));
             if let Some((first, detail)) = leftover(&before, &after) {
                 let leak = leak_class(&before, &after);
-                let cls = if leak.split('+').any(|x| x == "annotations") {
+                rep.count(&format!("left-behind/{}/{}", api, leak));
+                let cls = if api == "query-add-offset" {
+                    // refused before anything is added on the pinned tree
+                    leak.clone()
+                } else if api == "query-add" && leak != "annotations+datasets+keys+data" {
+                    // the recorded finding for the fixed-id ADD query leaves exactly the first row's annotation with its new set, key and data
+                    leak.clone()
+                } else if leak.split('+').any(|x| x == "annotations") {
                     "explained:items-before-the-invalid-one-stay".to_string()
                 } else if leak.split('+').all(|x| ["datasets", "keys", "data", "textselections"].contains(&x)) {
                     "explained:earlier-steps-of-annotate-are-not-rolled-back".to_string()
